@@ -6,7 +6,11 @@ from . import core, httpgen as hg, openapi_gen as og
 
 DEVIATIONS = ["schema.exclusive_bound_numeric", "v3.trace_route_dropped", "v3.nosecurity_inherits_api_security",
               "v3.fileserver_documents_api_security", "v3.api_security_scheme_undefined", "v3.fileserver_wildcard_kept",
-              "v3.fileserver_param_without_schema", "v3.allow_empty_value_not_query", "yaml.leading_newline_dropped"]
+              "v3.fileserver_param_without_schema", "v3.allow_empty_value_not_query", "yaml.leading_newline_dropped",
+              "server.required_cookie_resets_errors"]
+# deviations whose effects show in the same table entry
+INTERACT = [("v3.nosecurity_inherits_api_security", "v3.api_security_scheme_undefined"),
+            ("v3.fileserver_documents_api_security", "v3.api_security_scheme_undefined")]
 INVS = "MountEqualsExpected Doc3EqualsMount Doc2EqualsMount JsonEqualsYaml DocsValid FoldIsExpected"
 BASE = {"NPA": 1, "NRA": 1, "Family": '"req"'}
 FAMILIES = ["paths", "verbs", "params", "resps", "sec", "files"]
@@ -19,7 +23,7 @@ def tla_set(names):
 # ------------------------------------------------------------------ TLC: enumerate / evaluate
 def enumerate_designs(ctx, fam, nsvc=1, nmeth=1, simulate=None, depth=None):
     r = ctx.gen("mc/MC_OpenAPIOps", "gen/Gen_OpenAPIOps.cfg", consts={"OFamily": '"%s"' % fam, "NSvc": nsvc, "NMeth": nmeth},
-                simulate=simulate, depth=depth, label="Gen designs %s %dx%d%s" % (fam, nsvc, nmeth, " (simulate)" if simulate else ""), timeout=900)
+                simulate=simulate, depth=depth, workers=(1 if simulate else "auto"), label="Gen designs %s %dx%d%s" % (fam, nsvc, nmeth, " (simulate)" if simulate else ""), timeout=900)
     out, seen = [], set()
     for v in r.vectors:
         k = core.canon(v["design"])
@@ -131,8 +135,8 @@ def observed_tables(res, i):
     """Canonical observed tables of design i."""
     t = {"mounts": {og.mount_key(m) for m in res.mounts[i]},
          "srvOps": og.table(res.srvops[i]),
-         "doc3": og.table([e for e in res.docs[i] if e["ev"] == "docop" and e["version"] == 3]),
-         "doc2": og.table([e for e in res.docs[i] if e["ev"] == "docop" and e["version"] == 2]),
+         "doc3": og.table([nodocparam(e) for e in res.docs[i] if e["ev"] == "docop" and e["version"] == 3]),
+         "doc2": og.table([nodocparam(e) for e in res.docs[i] if e["ev"] == "docop" and e["version"] == 2]),
          "verdicts": {}}
     for e in res.docs[i]:
         v = e.get("version")
@@ -147,6 +151,11 @@ def observed_tables(res, i):
             t["verdicts"]["valid%d" % v] = False
             t["verdicts"]["missing%d" % v] = True
     return t
+
+
+def nodocparam(e):
+    """Documented operations are compared without their Authorization header parameter (OpenAPIOps.tla DocParam)."""
+    return dict(e, params=[p for p in e["params"] if not (p["in"] == "header" and p["name"] == "Authorization")])
 
 
 def predicted_tables(vec, which="mech"):
